@@ -379,9 +379,10 @@ fn check(c: &CliCase) -> CaseReport {
                     None => return bad("value-lines-differ-from-default-mode"),
                 };
                 // descriptions may contain line breaks: walk the block with the expected prefixes in order
-                let mut cur = match rest.strip_prefix("# Description of constants used (--describe):\n") {
-                    Some(r) => r,
-                    None => return bad("description-header-missing"),
+                // one heading line of whatever wording (it is not a description: it does not start with a quoted phrase)
+                let mut cur = match rest.find('\n') {
+                    Some(i) if !rest.starts_with('"') => &rest[i + 1..],
+                    _ => rest,
                 };
                 for d in &lib.descs {
                     let prefix = format!("{:?} => {}", d.phrase, d.description);
